@@ -1,4 +1,5 @@
 import ShmVerif.Drv.C04
+import ShmVerif.Drv.C01
 /-! `shmdriver`: reads op lines on stdin, runs the executable models the theorems are about, prints one line
     per op line. First line: `model <name>`; `case <k>` resets the model state. -/
 
@@ -23,5 +24,6 @@ def main : IO Unit := do
   out.putStrLn l
   match l with
   | "model c04" => loop h out ({} : Drv.C04.St) Drv.C04.step {}
+  | "model c01" => loop h out ({} : Drv.C01.St) Drv.C01.step {}
   | _ => out.putStrLn "unknown-model"
   out.flush
